@@ -23,6 +23,7 @@ CONSTANTS
   RejoinPausedNoAvail = FALSE
   ResetSeparate = FALSE
   JumpToFirstAvailable = FALSE
+  ReportOnlyIfBitSet = FALSE
 SPECIFICATION Spec
 VIEW View
 INVARIANTS C08_NoPanic
